@@ -222,6 +222,14 @@ so the native cross-check of its contract on the real code still decides (`<unit
 * a change that made the emitted helper templates untranslatable (`memcpy` in `__redu_list_assign`) crashed the C09 contract set-up with a
   Python traceback (exit 1 without a VIOLATION line): set-up failures are now an UNDECIDED/CHECKER-DEFECT verdict, and the executed
   obligations still run (they report the use-after-free with its input).
+* C19: adding motor speeds of magnitude 1e-12 to the native samples produced three `native-contract-check` VIOLATIONs on the pinned tree:
+  the native evaluator compared floats with an absolute tolerance of 1e-9 near zero, so the contract clause `applied_speed != 0` read
+  1e-12 as zero while the real class (rightly) was in `drive`. The code was right and the evaluator wrong; comparisons with exact zero
+  are now exact (`pyvc/native.py`), which also lets the check see a dead band introduced into `_apply_speed`.
+* C08: the first form of the branch-declared-device obligation compared firmware traces; a device constructed inside an `if` arm does
+  not compile on the pinned tree at all (its state globals are never declared). That is a defect, but of C06, not of argument binding:
+  it is recorded there as a known finding (shape `device-declared-in-both-arms-of-an-if`), and the C08 obligation compares the IR node
+  of the call (what the call binds to), which is what C08 is about.
 No false alarm was ever recorded as a known finding; no check was loosened to pass.
 
 ### 12.6 Genuine defects of the pinned tree
